@@ -31,7 +31,7 @@ theorem callEntry_mgr (σ1 : St) (t : Nat) (o : Outer) (g ng ns : Nat) : (callEn
 theorem callEntry_plain (σ1 : St) (t : Nat) (o : Outer) (g ng ns : Nat) (hp : (σ1.th t).pc = .idle) :
     ((callEntry σ1 t o g ng ns).th t).pc.mPlain = true := by
   unfold callEntry; simp only []; repeat' split
-  all_goals simp [St.goto, St.setTh, St.setHd, upd, PC.mPlain, PC.mgrPhase, PC.mgrOK, MK.isRmTokFree, hp]
+  all_goals simp [St.goto, St.setTh, St.setHd, upd, PC.mPlain, PC.mgrPhase, PC.mgrOK, MK.isRmTokFree, MK.isRm1, hp]
 
 theorem mgi_call {σ : St} (t : Nat) (o : Outer) (g v ng ns : Nat) (I : MInvS σ) :
     MInvS (step σ (.call t o g v ng ns)) := by
